@@ -23,7 +23,7 @@ F01 = Fraction(0.1)
 PI = Fraction(math.pi)
 
 
-def run(ctx):
+def _run_rules(ctx):
     rep, f = ctx.rep, ctx.facts
     rep.trust('pk/sym.py symbolic interpreter, recording model for Vec::push, exact rationals of f64 literals')
     rep.assume('the initial cell length c*R*N is >= 0.01 (shapes have a positive enclosing radius); scores of valid states '
@@ -68,6 +68,9 @@ def _clamp(ctx):
                         ok = False
                         break
                 except (KeyError, ValueError):
+                    from ..optmodel import _mentions_opaque
+                    if _mentions_opaque(c[1]) and not any(s_ in repr(c[1]) for s_ in ("'x'", bp[0], bp[1])):
+                        continue        # a test of something else (is the log level enabled?): both outcomes are possible
                     ok = None
                     break
             if ok:
@@ -75,7 +78,12 @@ def _clamp(ctx):
             elif ok is None:
                 feas = None
                 break
-        if feas is None or len(feas) != 1:
+        if feas:
+            # paths that differ only in such tests must store the same thing
+            w0 = repr([e[1] for e in feas[0].effects if e[0] == ('rec', 'cellwrite')])
+            if any(repr([e[1] for e in o2.effects if e[0] == ('rec', 'cellwrite')]) != w0 for o2 in feas[1:]):
+                feas = None
+        if not feas:
             rep.fail('R2', 'clamp:%s' % label, where(b), 'cannot decide which path of set_value is taken for %s '
                      '(%s feasible)' % (label, None if feas is None else len(feas)), 'undecidable-shape')
             continue
@@ -278,3 +286,12 @@ def thorough(ctx):
         rep.check(verdict == 'ok', 'W', '%s:%s' % (w, kind), 'witness/src/lib.rs', wanted[w] + (' (does not compile)' if kind == 'compile_fail' else ' (twin compiles)'),
                   'witness %s/%s failed: the type-level guarantee "%s" no longer holds for downstream code (or the public API it uses changed)' % (w, kind, wanted[w]))
     rep.floor('W', 'witness doctests', n, 6, 'witness/src/lib.rs')
+
+
+def run(ctx):
+    _run_rules(ctx)
+    from .common import import_obligations
+    # the starting cell length is 4 * enclosing radius * copies: the radius must enclose the shape (C01.R6)
+    import_obligations(ctx, 'C01', 'R6', only_rules={'R6'}, floor=2)
+    # chained stages start from clones: a clone has the same parameters and family (C09.R3)
+    import_obligations(ctx, 'C09', 'R7', only_rules={'R3'}, floor=2)
